@@ -95,7 +95,8 @@ def gen(tier, rng):
     # (every complete NAL is exactly a unit of the segmentation, every incomplete view a prefix of it)
     from vlib.annexb_util import big_scripts
     for sc in big_scripts(rng, tier):
-        cases.append("!annexbig A " + sc)
+        if ",D" not in sc:        # multi-GiB runs are for the fragment-handler mode (C01, C18)
+            cases.append("!annexbig A " + sc)
     # readers dropped in the middle of a NAL (no reset, no further start code) with 100 bytes .. 1 MiB buffered, each followed
     # in the same process by an ordinary stream through a new reader: nothing of the abandoned NAL shows up there
     for n in (100, 1000, 1023, 1024, 1025, 1500, 3000, 4096, 10000, 65536, 100000, 1 << 20):
